@@ -725,15 +725,16 @@ func (x *Unit) execRange(st *State, s *ast.RangeStmt, fl *flow, label string) *S
 	case *types.Map:
 		// unknown number of iterations over distinct present keys
 		st.env[idxObj] = Val{IntLit(0), types.Typ[types.Int]}
+		len0 := x.define("rangelen", x.mapLenT(st, coll)) // the number of iterations is fixed when the loop starts
+		x.assume(st, Cmp(">=", len0, IntLit(0)))
 		lb.auto = func(h *State) T {
 			i := h.env[idxObj].T
-			return And(Cmp(">=", i, IntLit(0)), Cmp("<=", i, x.mapLenT(h, coll)))
+			return And(Cmp(">=", i, IntLit(0)), Cmp("<=", i, len0))
 		}
-		lb.cond = func(h *State) T { return Cmp("<", h.env[idxObj].T, x.mapLenT(h, coll)) }
+		lb.cond = func(h *State) T { return Cmp("<", h.env[idxObj].T, len0) }
 		lb.body = func(h *State, inner *flow) *State {
 			k := x.freshVal(h, "key", tt.Key())
 			x.assume(h, x.mapHas(h, coll, k.T))
-			x.assume(h, Cmp(">=", x.u.MapLen(x.mapContent(h, coll)), IntLit(1)))
 			v := Val{Select(x.u.MapVal(x.mapContent(h, coll)), k.T), tt.Elem()}
 			x.assume(h, x.typeInv(h, v, 1))
 			h.spec["$rangekey"] = k
